@@ -24,6 +24,8 @@ Init ==
              \cup {<<"qidx", i, j>> : i \in 1..Len(qs), j \in free}        \* index replaced by another in-range index
              \cup {<<"qalias", i, k>> : i \in 1..Len(qs), k \in {1, 2, 5}}  \* index replaced by an out-of-range alias idx + k * 2^height
              \cup {<<"auth", i, 0>> : i \in 1..Len(a)}
+             \cup {<<"authhi", i, k>> : i \in 1..Len(a), k \in {160, 248}}  \* a needed sibling changed only above the digest width
+             \cup {<<"qvalhi", i, k>> : i \in 1..Len(qs), k \in {160, 248}}
              \cup {<<"dropauth", i, 0>> : i \in 1..Len(a)}                  \* a needed sibling is missing
              \cup {<<"swapauth", i, 0>> : i \in 1..(Len(a) - 1)}            \* two needed siblings exchanged
              \cup {<<"nvf", m, 0>> : m \in (0..(MaxHeight + 2)) \ {n}} :    \* opened under another friendly boundary
@@ -32,8 +34,10 @@ Init ==
       /\ corrupt = c
       /\ qidx = [i \in 1..Len(qs) |-> IF c[1] = "qidx" /\ c[2] = i THEN c[3]
                                        ELSE IF c[1] = "qalias" /\ c[2] = i THEN qs[i] + c[3] * 2^h ELSE qs[i]]
-      /\ qval = [i \in 1..Len(qs) |-> IF c = <<"qval", i, 0>> THEN Bad(i) ELSE LeafAtom(qs[i])]
+      /\ qval = [i \in 1..Len(qs) |-> IF c = <<"qval", i, 0>> THEN Bad(i)
+                                       ELSE IF c[1] = "qvalhi" /\ c[2] = i THEN HiBits(LeafAtom(qs[i]), c[3]) ELSE LeafAtom(qs[i])]
       /\ auth = CASE c[1] = "auth" -> [a EXCEPT ![c[2]] = Bad(100 + c[2])]
+                  [] c[1] = "authhi" -> [a EXCEPT ![c[2]] = HiBits(@, c[3])]
                   [] c[1] = "dropauth" -> SubSeq(a, 1, c[2] - 1) \o SubSeq(a, c[2] + 1, Len(a))
                   [] c[1] = "swapauth" -> [a EXCEPT ![c[2]] = a[c[2] + 1], ![c[2] + 1] = a[c[2]]]
                   [] c[1] = "extra" -> Append(a, Bad(999))
